@@ -8,7 +8,7 @@ class PROP(Prop):
     id = "C20"
     profiles = ["debug", "release"]
     rule = ("every typed method x replies of the matching function code whose item count / echoed fields are smaller than, equal to, "
-            "larger than requested (incl. 0, 1, byte-boundary +-1, maximal), plus exception replies; TCP and RTU; debug and release. "
+            "larger than requested (incl. 0, 1, byte-boundary +-1, maximal), each echoed field of a write reply perturbed on its own, plus exception replies; TCP and RTU; debug and release. "
             "non-trivial = reply count or echo differs from the request")
 
     def cases(self, rng, tier):
@@ -47,6 +47,13 @@ class PROP(Prop):
                             self.add(cs, proto, prof, ("WMR", a, ws), ("WMR", a2, (len(ws) + dv) & 0xFFFF), rng, {"echo": (da, dv) != (0, 0)})
                             m1, m2 = mb.rnd_word(rng), mb.rnd_word(rng)
                             self.add(cs, proto, prof, ("MWR", a, m1, m2), ("MWR", a2, (m1 + dv) & 0xFFFF, m2), rng, {"echo": (da, dv) != (0, 0)})
+                            # each echoed field perturbed on its own (one bit, +1, swapped masks)
+                            for f3 in ((a, m1, m2 ^ (1 << rng.randrange(16))), (a, m1, (m2 + 1) & 0xFFFF), (a, m2, m1), (a ^ (1 << rng.randrange(16)), m1, m2), (a, m1 ^ (1 << rng.randrange(16)), m2)):
+                                self.add(cs, proto, prof, ("MWR", a, m1, m2), ("MWR",) + f3, rng, {"echo": f3 != (a, m1, m2)})
+                            self.add(cs, proto, prof, ("WSR", a, v), ("WSR", a ^ (1 << rng.randrange(16)), v), rng, {"echo": True})
+                            self.add(cs, proto, prof, ("WSR", a, v), ("WSR", a, v ^ (1 << rng.randrange(16))), rng, {"echo": True})
+                            self.add(cs, proto, prof, ("WMR", a, ws), ("WMR", a ^ (1 << rng.randrange(16)), len(ws)), rng, {"echo": True})
+                            self.add(cs, proto, prof, ("WMC", a, coils), ("WMC", a ^ (1 << rng.randrange(16)), len(coils)), rng, {"echo": True})
         return cs
 
     def add(self, cs, proto, prof, req, rsp, rng, meta):
@@ -91,7 +98,13 @@ class PROP(Prop):
             elif len(rsp[1]) == req[2]:
                 return "exact-count reply not returned: %s" % r[:60]
             return None
-        # writes: success only for a reply of its own kind (always the case here); must not panic
+        # writes: success only for the reply of its own kind -- the one that echoes the request (address and value / masks / count)
+        echo = {"WSR": lambda: rsp[1:] == req[1:], "WSC": lambda: rsp[1:] == req[1:], "MWR": lambda: rsp[1:] == req[1:],
+                "WMC": lambda: rsp[1:] == (req[1], len(req[2])), "WMR": lambda: rsp[1:] == (req[1], len(req[2]))}
+        if r == "U" and k in echo and rsp[0] == k and not echo[k]():
+            return "typed write %s reported success for the reply %s, which does not echo it" % (c.meta["req"][:50], c.meta["rsp"][:50])
+        if k in echo and rsp[0] == k and echo[k]() and r != "U":
+            return "typed write %s failed (%s) on its own echo" % (c.meta["req"][:50], r[:40])
         return None if r == "U" or r.startswith("T:") else "typed write: unexpected %s" % r[:60]
 
     def nontrivial(self, c):
